@@ -194,9 +194,10 @@ def rule_isel(b):
             a = list(args)
             a.insert(vec_index, v)
             _, outs = backend.fold(ctx, key, a)
+            msg = backend.fold_verdict(outs, "R-ISEL: %s" % key.split(">::")[-1])
+            if msg:
+                return None         # the emission function panics on this placement
             outs = [o for o in outs if not getattr(o, "diverged", None)]
-            if len(outs) != 1:
-                return None
             return outs[0].final.locals[vec_index + 1].items
 
         # arithmetic
@@ -212,7 +213,7 @@ def rule_isel(b):
                 codes = fold_list(key, [t, s1, s2], 3)
                 n += 1
                 if codes is None:
-                    bad.append(("fold", t, s1, s2, ["emission could not be folded"]))
+                    bad.append(("fold", t, s1, s2, ["the emission function panics on this input"]))
                     continue
                 locs = {tg.loc_of(x) for x in (t, s1, s2)} | {tg.loc_of(x) for x in P}
                 m, init = _init_machine(arch, locs)
@@ -244,7 +245,7 @@ def rule_isel(b):
         for s2 in P:
             codes = fold_list(key, [temp_t, temp_t, s2], 3)
             if codes is None:
-                bad.append((s2, ["emission could not be folded"]))
+                bad.append((s2, ["the emission function panics on this input"]))
                 continue
             m, init = _init_machine(arch, {tg.loc_of(x) for x in P} | {tg.loc_of(temp_t)})
             isa.run(ctx, arch, codes, m)
@@ -273,7 +274,7 @@ def rule_isel(b):
                     args = [t] + ([Adt(IMMT, "Immediate", {"val": imm}) if IMMT else imm] if imm is not None else []) + (["L"] if name == "load_label" else [])
                     codes = fold_list(key, args, len(args))
                     if codes is None:
-                        bad.append((t, ["emission could not be folded"]))
+                        bad.append((t, ["the emission function panics on this input"]))
                         continue
                     locs = {tg.loc_of(x) for x in P} | {tg.loc_of(temp_t)}
                     m, init = _init_machine(arch, locs)
@@ -309,7 +310,7 @@ def rule_isel(b):
         for s in P:
             codes = fold_list(key, [ret1_t, s], 2)
             if codes is None:
-                bad.append((s, ["emission could not be folded"]))
+                bad.append((s, ["the emission function panics on this input"]))
                 continue
             m, init = _init_machine(arch, {tg.loc_of(x) for x in P})
             isa.run(ctx, arch, codes, m)
@@ -332,7 +333,7 @@ def rule_isel(b):
             codes = fold_list(key, [t, s], 2)
             n += 1
             if codes is None:
-                bad.append((t, s, ["emission could not be folded"], []))
+                bad.append((t, s, ["the emission function panics on this input"], []))
                 continue
             m, init = _init_machine(arch, {tg.loc_of(x) for x in P})
             isa.run(ctx, arch, codes, m)
@@ -388,7 +389,7 @@ def rule_isel(b):
                 codes = fold_list(key, [t, imm], 2)
                 n += 1
                 if codes is None:
-                    bad.append((t, val, ["emission could not be folded"], []))
+                    bad.append((t, val, ["the emission function panics on this input"], []))
                     continue
                 m, init = _init_machine(arch, {tg.loc_of(x) for x in P})
                 isa.run(ctx, arch, codes, m)
@@ -421,7 +422,7 @@ def rule_isel(b):
                     codes = fold_list(key, args, len(args))
                     n += 1
                     if codes is None:
-                        bad.append((ops, ["emission could not be folded"], []))
+                        bad.append((ops, ["the emission function panics on this input"], []))
                         continue
                     m, init = _init_machine(arch, {tg.loc_of(x) for x in P})
                     isa.run(ctx, arch, codes, m)
